@@ -36,6 +36,7 @@ fn main() {
         only: None,
         scale_pct: 100,
         max_cases: 0,
+        shard: (0, 1),
         skip: Vec::new(),
         trace_cases: false,
         extra: Vec::new(),
@@ -61,6 +62,14 @@ fn main() {
             "--out" => o.out = Some(val()),
             "--scale" => o.scale_pct = val().parse().unwrap_or_else(|_| usage()),
             "--max-cases" => o.max_cases = val().parse().unwrap_or_else(|_| usage()),
+            "--shard" => {
+                let v = val();
+                let (a, b) = v.split_once('/').unwrap_or_else(|| usage());
+                o.shard = (a.parse().unwrap_or_else(|_| usage()), b.parse().unwrap_or_else(|_| usage()));
+                if o.shard.1 == 0 || o.shard.0 >= o.shard.1 {
+                    usage();
+                }
+            }
             "--skip" => o.skip = val().split(',').map(|s| s.to_string()).collect(),
             "--trace-cases" => o.trace_cases = true,
             "--only" => {
